@@ -11,13 +11,13 @@ use std::collections::hash_map::DefaultHasher;
 use std::hash::{Hash, Hasher};
 use std::panic::{catch_unwind, AssertUnwindSafe};
 
-fn cut(s: &str) -> (&str, &str) {
+pub fn cut(s: &str) -> (&str, &str) {
     match s.find(':') {
         Some(i) => (&s[..i], &s[i + 1..]),
         None => (s, ""),
     }
 }
-fn sign_of(s: &str) -> Sign {
+pub fn sign_of(s: &str) -> Sign {
     match s {
         "-" => Sign::Minus,
         "0" => Sign::NoSign,
@@ -25,10 +25,10 @@ fn sign_of(s: &str) -> Sign {
         _ => panic!("bad sign"),
     }
 }
-fn words(s: &str) -> Vec<u32> {
+pub fn words(s: &str) -> Vec<u32> {
     digits(s).into_iter().map(|x| u32::try_from(x).expect("u32 word")).collect()
 }
-fn hexbytes(h: &str) -> Vec<u8> {
+pub fn hexbytes(h: &str) -> Vec<u8> {
     (0..h.len() / 2).map(|i| u8::from_str_radix(&h[2 * i..2 * i + 2], 16).unwrap()).collect()
 }
 
@@ -71,7 +71,7 @@ mod sd {
     }
 }
 
-fn ctor_u(s: &str) -> BigUint {
+pub fn ctor_u(s: &str) -> BigUint {
     let (name, rest) = cut(s);
     match name {
         "vec" => mk_biguint(digits(rest)),
@@ -92,7 +92,7 @@ fn ctor_u(s: &str) -> BigUint {
         _ => panic!("bad ctor"),
     }
 }
-fn ctor_i(s: &str) -> BigInt {
+pub fn ctor_i(s: &str) -> BigInt {
     let (name, rest) = cut(s);
     match name {
         "sle" => return BigInt::from_signed_bytes_le(&hexbytes(rest)),
@@ -157,7 +157,7 @@ macro_rules! scalar {
     }};
 }
 
-fn apply_u(x: &mut BigUint, op: &str) {
+pub fn apply_u(x: &mut BigUint, op: &str) {
     let (name, rest) = cut(op);
     match name {
         "add" => *x += &arg_u(rest),
@@ -204,7 +204,7 @@ fn apply_u(x: &mut BigUint, op: &str) {
     }
 }
 
-fn apply_i(x: &mut BigInt, op: &str) {
+pub fn apply_i(x: &mut BigInt, op: &str) {
     let (name, rest) = cut(op);
     match name {
         "add" => *x += &arg_i(rest),
@@ -256,7 +256,7 @@ fn apply_i(x: &mut BigInt, op: &str) {
     }
 }
 
-fn ops_of(h: &str) -> Vec<&str> {
+pub fn ops_of(h: &str) -> Vec<&str> {
     let h = strip("h:", h);
     if h.is_empty() {
         vec![]
@@ -265,7 +265,7 @@ fn ops_of(h: &str) -> Vec<&str> {
     }
 }
 
-fn hist<T>(mk: impl FnOnce() -> T, apply: impl Fn(&mut T, &str), show: impl Fn(&T) -> String, h: &str) -> (Vec<String>, Option<T>) {
+pub fn hist<T>(mk: impl FnOnce() -> T, apply: impl Fn(&mut T, &str), show: impl Fn(&T) -> String, h: &str) -> (Vec<String>, Option<T>) {
     let mut obs = Vec::new();
     let mut x = match catch_unwind(AssertUnwindSafe(mk)) {
         Ok(x) => x,
